@@ -35,6 +35,7 @@ import macro_check  # noqa: E402
 import macro_gen  # noqa: E402
 import c18_check  # noqa: E402
 import fill_check  # noqa: E402
+import cfg_probe  # noqa: E402
 import ops as O  # noqa: E402
 import session  # noqa: E402
 from props import PROPS, CONFIGS, THOROUGH_CONFIGS, AXIOM_ALLOW  # noqa: E402
@@ -565,11 +566,25 @@ def check(pid, tier, seed):
                     broken.append(('correspondence', 'debug build: ' + fr2['correspondence']))
                 fill_info['debug_build'] = dict(entities_created=fr2['entities'], records=fr2['records'])
 
+    cfgp_info = None
+    cfgp_viol = []
+    if P.get('cfgprobe'):
+        cr = cfg_probe.run(REPO, CACHE, seed, 12 * scale)
+        if cr['error']:
+            broken.append(('build', 'cfg probe: ' + cr['error']))
+        else:
+            cfgp_viol = cr['violations']
+            cfgp_info = dict(pairs_compiled_and_compared=cr['pairs'], skipped_invalid=cr.get('skipped', 0), sample=cr['sample'])
+
     violations = []
     known_hits = []
     kf = known_findings()
     for v in c18_viol:
         path = write_replay(pid, dict(property=pid, kind='specification-violation', harness='c18', detail=v, broken=broken))
+        violations.append('VIOLATION property=%s replay=%s' % (pid, path))
+    for v in cfgp_viol[:3]:
+        path = write_replay(pid, dict(property=pid, kind='specification-violation', harness='cfg_probe', reason=v['what'], description=v['description'],
+                                      program=v['program'], erased=v.get('erased'), seed=seed, pair=v['pair'], broken=broken))
         violations.append('VIOLATION property=%s replay=%s' % (pid, path))
     for v in fill_viol[:3]:
         path = write_replay(pid, dict(property=pid, kind='specification-violation', harness='fill', reason=v['reason'], record=v['record'],
@@ -718,14 +733,14 @@ def check(pid, tier, seed):
             trusted_base=['Coq 8.16.1 kernel incl. vm_compute', 'tools/extract.py (translator)', 'correspondence harness (harness/storage_harness, tools/gen_ops.py, tools/coqrun.py)',
                           'rustc/cargo', 'axioms: ' + (', '.join(axioms) if axioms else 'none (Closed under the global context)')],
             theorems=thms, cone_files=conefiles,
-            evaluations=total_cases + (1 if fill_info else 0) + (macro_info['cases'] if macro_info else 0) + ((c18_info['programs'] + c18_info['expansions_checked']) if c18_info else 0),
+            evaluations=total_cases + (1 if fill_info else 0) + (cfgp_info['pairs_compiled_and_compared'] if cfgp_info else 0) + (macro_info['cases'] if macro_info else 0) + ((c18_info['programs'] + c18_info['expansions_checked']) if c18_info else 0),
             distinct_nontrivial=len(distinct) + (macro_info['distinct'] if macro_info else 0) + ((c18_info['programs'] + c18_info['expansions_checked']) if c18_info else 0),
             rule='histories generated interactively from VERIF_SEED per stream; non-trivial = at least 10 operations including every kind in %s; distinct by the hash of the operation list' % sorted(need),
             traces_validated_against_impl=total_cases,
             model_disagreements=len(diffs), spec_failures=len(own),
             streams=[dict(config=cn, cases=s['cases'], ops=s['ops'], histories_meeting_run_theorem_hypotheses=s.get('wf_histories', 0), histories_meeting_history_theorem_hypotheses=s.get('hist_histories', 0), ops_by_kind=s['by_kind'], outcomes=s['outcomes']) for cn, s in stats_all],
             samples=([sample] if sample else []) + ([macro_info['sample']] if macro_info else []),
-            macro=macro_info, c18=c18_info, fill=fill_info, coqchk=coqchk_note, programs=(c18_info['programs'] if c18_info else 0),
+            macro=macro_info, c18=c18_info, fill=fill_info, cfg_probe=cfgp_info, coqchk=coqchk_note, programs=(c18_info['programs'] if c18_info else 0),
             exhaustive=any(r['case'].get('exhaustive') for r in all_results) if pid == 'C11' else False,
             explanation='machine-checked theorems over the model; model tied to the source by translation (coq/gen regenerated this run) and by differential execution of the same operations on the implementation',
         ),
@@ -765,6 +780,15 @@ def replay(path):
                         return 1
             return 0
         print(json.dumps(d, indent=1))
+        return 0
+    if j.get('harness') == 'cfg_probe':
+        cr = cfg_probe.run(REPO, CACHE, j['seed'], 12)
+        hit = [v for v in cr['violations'] if v['pair'] == j['pair']]
+        print('recorded:', j['reason'])
+        print('now:', hit[0]['what'] if hit else 'decorated and erased declarations agree', cr['error'] or '')
+        if hit:
+            print('VIOLATION property=%s replay=%s' % (pid, path))
+            return 1
         return 0
     if j.get('harness') == 'fill':
         fr = fill_check.run(REPO, CACHE, COQ)
